@@ -181,6 +181,11 @@ func (r *Registry) addContractFile(pkgPath string, cf *ContractFile) {
 		r.preds[pkgPath+"."+p.Name] = p
 	}
 	for _, g := range cf.GFields {
+		if pkgPath == "" {
+			// model files: `ghost field pkg.Type.name` (Type holds "pkg", Name holds "Type.name")
+			r.gfields[g.Type+"."+g.Name] = g
+			continue
+		}
 		r.gfields[pkgPath+"."+g.Type+"."+g.Name] = g
 	}
 	for _, g := range cf.GVars {
